@@ -35,7 +35,11 @@ impl Decoder for BlockCodec {
         match self.decode(buf)? {
             Some(frame) => Ok(Some(frame)),
             None => {
-                if buf.is_empty() {
+                // Like the synchronous frame reader, a stream that ends inside of a block header
+                // is at EOF. A stream that ends inside of the rest of a block is truncated, which
+                // is reported when the (partial) frame is parsed.
+                if buf.len() < BGZF_HEADER_SIZE {
+                    buf.clear();
                     Ok(None)
                 } else {
                     Ok(Some(buf.split().freeze()))
